@@ -345,6 +345,11 @@ func c05Check(e *core.Env, r *core.Rand, idx int64, file, text string, exists bo
 			return
 		}
 	}
+	if core.Hash64("c05-symlink", fmt.Sprint(idx))%8 == 0 && exists && cmd.Kind != "bookmarks" && cmd.Sabotage == 0 && !(cmd.Kind == "pause" && len(cmd.Ticks) > 1) {
+		if !c05ViaSymlink(e, file, text, cmd, env, w) {
+			return
+		}
+	}
 	if cell != "" {
 		e.Count("cell_"+cell, 1)
 		e.Nontrivial(core.Hash64("c05", cell, text, cmd.String()))
@@ -389,6 +394,46 @@ func c05DevFull(e *core.Env, file, text string, cmd MCmd, env MEnv, w map[string
 	}
 	delete(w, "stdout")
 	e.Count("runs_with_unwritable_stdout", 1)
+	return true
+}
+
+// c05ViaSymlink repeats the command with the target given as a symbolic link to the file (a journal kept in a synced
+// folder and linked into the home directory): the link is just another path to the same bytes, so a reported failure
+// goes with untouched bytes and a success with a valid file - and the link stays a link.
+func c05ViaSymlink(e *core.Env, file, text string, cmd MCmd, env MEnv, w map[string]any) bool {
+	link := e.Dir + "/link-to-target.klg"
+	_ = os.Remove(link)
+	if err := os.Symlink(file, link); err != nil {
+		return true
+	}
+	defer os.Remove(link)
+	_ = os.WriteFile(file, []byte(text), 0644)
+	res := runMutating(e, cmd, env, link, false)
+	after := readFile(file)
+	w["how"] = "target given as a symbolic link to the file"
+	w["symlink_file_after"] = after
+	if res.Panic != nil {
+		res.OK = false
+	}
+	if !res.OK && after != text {
+		e.Violation("failed-command-changes-file", fmt.Sprintf("target given as a symbolic link: `klog %s` failed (%s) but the file's bytes changed", cmd.String(), trunc(res.ErrText, 120)), w)
+		return false
+	}
+	if res.OK {
+		if _, perr := readBack(after); perr != "" {
+			e.Violation("success-leaves-invalid-file", "target given as a symbolic link: file does not parse after a successful command: "+perr, w)
+			return false
+		}
+		if fi, err := os.Lstat(link); err != nil || fi.Mode()&os.ModeSymlink == 0 {
+			e.Count("symlink_replaced_by_regular_file", 1)
+		}
+	}
+	delete(w, "how")
+	delete(w, "symlink_file_after")
+	e.Count("runs_via_symlink", 1)
+	if res.OK {
+		e.Count("runs_via_symlink_succeeding", 1)
+	}
 	return true
 }
 
